@@ -32,14 +32,16 @@ def tools_dir():
     return d
 
 
-def path_events(trace_file):
-    """names of the path hook points a traced tool run went through (BIGTOOLS_VERIF_TRACE)"""
+def path_events(trace_file, keep=None):
+    """names of the path hook points a traced tool run went through (BIGTOOLS_VERIF_TRACE); `keep` collects every event"""
     names = set()
     try:
         for line in open(trace_file):
             f = line.split()
             if f and f[0].startswith("path."):
                 names.add(f[0])
+            elif keep is not None and len(f) == 4:
+                keep.append([f[0], int(f[1]), int(f[2])])
         os.remove(trace_file)
     except OSError:
         pass
@@ -193,7 +195,8 @@ def c16_case(tdir, d, k, b):
     if rc1 == 0 and os.path.exists(big):
         rc2, _, err2 = run_tool(tdir, cfg["invoke"], "bigwigtobedgraph" if kind == "bw" else "bigbedtobed", a2, trace=tr2)
     # which internal paths actually ran (hook points `path.*` recorded through BIGTOOLS_VERIF_TRACE)
-    ev = path_events(tr1) | path_events(tr2)
+    events = [] if k % 40 == 0 else None     # every fortieth forward conversion: all hook events, for trace validation against Pipeline.tla
+    ev = path_events(tr1, events) | path_events(tr2)
     seen_path = {"source": sorted(x[len("path.source."):] for x in ev if x.startswith("path.source.")),
                  "passes": 1 if "path.pass.single" in ev else (2 if {"path.pass.first", "path.pass.zoom"} <= ev else 0),
                  "back": sorted(x[len("path.back."):] for x in ev if x.startswith("path.back."))}
@@ -206,7 +209,7 @@ def c16_case(tdir, d, k, b):
             os.remove(p)
         except OSError:
             pass
-    return {"cfg": cfg, "path": b["path"], "items": items, "rc": rc_, "rs": rs_, "re": re_, "size": size[rc_], "obs": obs, "argv1": a1[3:], "argv2": a2[2:]}
+    return {"cfg": cfg, "path": b["path"], "items": items, "rc": rc_, "rs": rs_, "re": re_, "size": size[rc_], "obs": obs, "argv1": a1[3:], "argv2": a2[2:], "events": events if rc1 == 0 else None}
 
 
 def run_parallel(fn, jobs, workers=8):
@@ -245,6 +248,11 @@ def c16_main():
     run.drift += len(validate_obs.last_drift)
     for i in validate_obs.last_drift[:3]:
         log("[C16] MODEL-DRIFT detail: paths seen %s for cfg %s" % (json.dumps(obs[i]["obs"]["seen"]), json.dumps(obs[i]["cfg"])))
+    # the write pipeline as the real converter ran it (serial / parallel source with the real indexer, one or two passes)
+    traced = [({"source": "converter", "cfg": o["cfg"]}, o["events"]) for o in obs if o.get("events")]
+    if traced:
+        from checks.c11 import validate_pipeline_traces
+        validate_pipeline_traces(run, traced, label="converter_pipeline_trace_validation", min_lanes=10, min_multi=0)
     seen = {}
     for o in obs:
         k = json.dumps(o["obs"]["seen"], sort_keys=True)
